@@ -129,16 +129,38 @@ def main():
     for k, (s, e, _) in reversed(list(enumerate(blocks))):
         skeleton = skeleton[:s] + "<M%d>" % k + skeleton[e:]
     sk = norm(skeleton)
-    original = "".join("<M%d>" % k for k in range(len(blocks))) + REBUILD_BIN
-    optional = "let folded=<M0>;match folded{Some(expr)=>expr,None=>" + REBUILD_BIN + "}"
-    if sk == original:
-        returning = True
-    elif sk == optional and len(blocks) == 1:
-        returning = False
-    else:
+    # the skeleton is a sequence of phases followed by the reconstruction of the Binary node:
+    #   <Mk>                                                          arms `return` the folded expression
+    #   let folded=<Mk>;if let Some(expr)=folded{return expr;}        arms are Option<Expr> values
+    #   let folded=<Mk>;match folded{Some(expr)=>expr,None=>REBUILD}  (last phase only)
+    styles = []
+    rest = sk
+    k = 0
+    done = False
+    while not done:
+        opt = "let folded=<M%d>;if let Some(expr)=folded{return expr;}" % k
+        last = "let folded=<M%d>;match folded{Some(expr)=>expr,None=>%s}" % (k, REBUILD_BIN)
+        ret = "<M%d>" % k
+        if rest.startswith(opt):
+            styles.append(False)
+            rest = rest[len(opt):]
+        elif rest == last:
+            styles.append(False)
+            rest = ""
+            done = True
+        elif rest.startswith(ret):
+            styles.append(True)
+            rest = rest[len(ret):]
+        elif rest == REBUILD_BIN:
+            done = True
+            rest = ""
+        else:
+            raise Shape("fold_binary: unrecognised function skeleton: %s" % sk)
+        k += 1
+    if len(styles) != len(blocks):
         raise Shape("fold_binary: unrecognised function skeleton: %s" % sk)
     phases = []
-    for _, _, inner in blocks:
+    for (_, _, inner), returning in zip(blocks, styles):
         rules = []
         arms = split_arms(inner)
         last_pat, last_body = arms[-1]
